@@ -101,12 +101,14 @@ pub struct RCfg {
     pub max_visits: u32,
     /// how many "joining" answers (ready / in ring) may be given on one path
     pub join_budget: u8,
+    /// value of the station's clock at the start (microseconds)
+    pub origin_us: i64,
 }
 
 impl RCfg {
     pub fn to_json(&self) -> Value {
         json!({"ts": self.ts, "hsa": self.hsa, "gap_factor": self.gap_factor, "slot_bits": self.slot_bits, "ttr": self.ttr, "period_div": self.period_div, "members0": self.members0,
-            "scripts": self.scripts.iter().map(|s| s.iter().map(|x| format!("{:?}", x)).collect::<Vec<_>>()).collect::<Vec<_>>(), "multi": self.multi, "mon": format!("{:?}", self.mon), "max_visits": self.max_visits, "join_budget": self.join_budget})
+            "scripts": self.scripts.iter().map(|s| s.iter().map(|x| format!("{:?}", x)).collect::<Vec<_>>()).collect::<Vec<_>>(), "multi": self.multi, "mon": format!("{:?}", self.mon), "max_visits": self.max_visits, "join_budget": self.join_budget, "origin_us": self.origin_us})
     }
     pub fn from_json(v: &Value) -> RCfg {
         let step = |s: &str| -> Step {
@@ -133,6 +135,7 @@ impl RCfg {
             mon: if v["mon"] == "C12" { RMon::C12 } else if v["mon"] == "C05" { RMon::C05 } else { RMon::C15 },
             max_visits: v["max_visits"].as_u64().unwrap() as u32,
             join_budget: v["join_budget"].as_u64().unwrap() as u8,
+            origin_us: v["origin_us"].as_i64().unwrap_or(0),
         }
     }
 }
@@ -251,6 +254,7 @@ impl RState {
         let mut station = FdlActiveStation::new(params);
         station.set_online();
         let mut bus = BusSim::new(BAUDS[1].1, 2);
+        bus.origin_us = cfg.origin_us;
         bus.retire_port(1);
         let mut members = cfg.members0.clone();
         members.sort();
@@ -386,7 +390,7 @@ impl RState {
             }
         }
         self.now += self.p_us;
-        let now = Instant::from_micros(self.now);
+        let now = Instant::from_micros(self.now + self.cfg.origin_us);
         let station = &mut self.station;
         let bus = &mut self.bus;
         let apps = &mut self.apps;
@@ -965,12 +969,13 @@ impl RState {
         let ttr = p.token_rotation_time().total_micros() as i64 + self.slot_us;
         b.extend_from_slice(v.state.as_bytes());
         b.extend_from_slice(v.gap_state.as_bytes());
-        let age = |t: Option<Instant>, sat: i64| -> i64 { t.map(|t| (self.now - t.total_micros()).clamp(-sat, sat)).unwrap_or(i64::MIN) };
+        let snow = self.now + self.cfg.origin_us; // the station's clock
+        let age = |t: Option<Instant>, sat: i64| -> i64 { t.map(|t| (snow - t.total_micros()).clamp(-sat, sat)).unwrap_or(i64::MIN) };
         b.extend_from_slice(&age(v.last_bus_activity, tl).to_le_bytes());
         b.extend_from_slice(&(v.pending_bytes as u32).to_le_bytes());
         b.extend_from_slice(&age(v.token_time, ttr).to_le_bytes());
         b.extend_from_slice(&age(Some(v.last_token_time), ttr).to_le_bytes());
-        b.extend_from_slice(&(v.end_token_hold_time.total_micros() - self.now).clamp(-1, ttr).to_le_bytes());
+        b.extend_from_slice(&(v.end_token_hold_time.total_micros() - snow).clamp(-1, ttr).to_le_bytes());
         b.extend_from_slice(&(v.next_application as u32).to_le_bytes());
         b.extend_from_slice(format!("{:?}{:?}", self.station.inspect_token_ring(), self.station.inspect_token_ring().verif_last_witnessed_sender()).as_bytes());
         self.bus.fingerprint_into(self.now, &mut b);
